@@ -255,6 +255,10 @@ def key_of(chain, kind, par=False):
     ops = [c["op"] for c in chain]
     if par and two_pass_after_bottleneck(chain):
         return "C06:parallel:two-pass-after-merged-bottleneck:wrong-result"
+    if par:
+        for i, c in enumerate(chain):
+            if c["op"] == "sort" and c["lim"] and any(d["op"] in ("sort", "stats", "top", "rare") for d in chain[i + 1:]):
+                return "C06:parallel:sort-limit-merge-order-clobbered:wrong-result"
     if kind == "e2e-result" and chain[0]["op"] == "stats" and chain[0]["by"] and chain[0]["fn"] == "sum" and chain[0]["f"] == "b":
         # the first aggregation is computed by the searcher's group-by path, not by the pipeline (C03/C04 territory)
         return "C06:e2e:searcher-groupby-sum-with-missing-field:layout-dependent"
@@ -411,7 +415,7 @@ def run(chk):
 
     # ---- behaviours
     lines = []
-    pick_sc, pick = gen_pick(chk.seed, 70 if quick else 500)
+    pick_sc, pick = gen_pick(chk.seed, 110 if quick else 500)
     try:
         gens = [("Gen_Pipeline_q1", None), ("Gen_Pipeline_q1ss", None), ("Gen_Pipeline_q2", pick), ("Gen_Pipeline_q3", pick)]
         if not quick:
@@ -637,8 +641,18 @@ def meta_level(chk, binary, sc, lines, quick, rnd):
     rnd.shuffle(tabs)
     tabs = [b for b in tabs if len(b["table"]) >= 2][: (12 if quick else 80)]
     spls = list(META_SPL)
+    def open_order_then_order_sensitive(chain):
+        # after stats/top/rare/sort the order (among ties) is open; head/tail/dedup/streamstats behind it may then
+        # legitimately differ from run to run - not comparable metamorphically
+        seen = False
+        for c in chain:
+            if c["op"] in ("stats", "top", "rare", "sort"):
+                seen = True
+            elif seen and c["op"] in ("head", "tail", "dedup", "streamstats"):
+                return True
+        return False
     for b in lines:
-        if is_meta(b["chain"]) and not any(c["op"] == "sort" and c["lim"] for c in b["chain"]):   # which tied row a sort limit keeps is open
+        if is_meta(b["chain"]) and not any(c["op"] == "sort" and c["lim"] for c in b["chain"]) and not open_order_then_order_sensitive(b["chain"]):
             spls.append(spl_of(b["chain"]))
     spls = vlib.dedup(spls, key=lambda x: x)
     if quick:
@@ -693,6 +707,10 @@ def meta_level(chk, binary, sc, lines, quick, rnd):
                 key = "C06:meta:%s:%s" % ("+".join(cmds), "chunking-dependent" if st == "ok" else st)
                 if "sort" in cmds and any(p.strip().startswith("bin ") and "span=" not in p for p in spl.split("|")[cmds.index("sort") + 1:]):
                     key = "C06:sort-then-two-pass:wrong-result"
+                if "streamstats window=" in spl:
+                    key = "C06:streamstats:window-index-reset-per-batch"
+                elif "reset_on_change=true" in spl:
+                    key = "C06:streamstats:reset_on_change-at-batch-boundary"
                 if key in reported:
                     continue
                 reported.add(key)
@@ -845,7 +863,7 @@ def e2e_level(chk, lines, quick, rnd):
             if strata[k]:
                 order.append(strata[k].pop())
     cand = order
-    n_cases = 120 if quick else 1200
+    n_cases = 160 if quick else 1200
     cases = []
     for b in cand:
         if len(cases) >= n_cases:
